@@ -3,7 +3,7 @@ CONSTANTS
   Kinds = {"apply"}
   Dims = {2, 3}
   Wide = FALSE
-  LmCfgs = {0, 1, 2, 3, 4, 5, 6, 7, 8, 9, 10, 11}
+  LmCfgs = {0, 1, 2, 3, 4, 5, 6, 7, 8, 9, 10, 11, 12}
 INVARIANT StructureKept
 INVARIANT VecRoundTrip
 INVARIANT VMaskSound
